@@ -67,7 +67,12 @@ DW_EXPRS = [
     "Dw raw entry ?AT_external (pos < 2) attribute", "Dw entry ?AT_prototyped (pos < 2) attribute",
 ]
 
-FILES = ["a1.out", "nullptr.o", "enum.o", "bitcount.o", "nontrivial-types.o", "testfile_const_type", "dwz-partial2-1", "dwz-partial3-1",
+# values that belong to a unit other than the first of the file (what identifies them within a unit is not what
+# identifies them within the file)
+LATE_UNIT_EXPRS = ["Dw unit (pos > 0) (pos < 3) entry (pos < 3) attribute (pos < 3)", "Dw unit (pos > 0) (pos < 3) entry (pos < 2)",
+                   "Dw unit (pos > 0) (pos < 3)"]
+
+FILES = ["twocus", "a1.out", "nullptr.o", "enum.o", "bitcount.o", "nontrivial-types.o", "testfile_const_type", "dwz-partial2-1", "dwz-partial3-1",
          "float_const_value.o-armv7hl", "float_const_value.o-ppc64"]
 
 
@@ -268,7 +273,7 @@ def work(task):
         dwx = []
         if fn:
             tok = "V%d" % drv.open(os.path.join("/repo/tests", fn), False)
-            dwx = rnd.sample(DW_EXPRS[:-5], min(n_dw, len(DW_EXPRS) - 5)) + rnd.sample(DW_EXPRS[-5:], 3)
+            dwx = rnd.sample(DW_EXPRS[:-5], min(n_dw, len(DW_EXPRS) - 5)) + rnd.sample(DW_EXPRS[-5:], 3) + LATE_UNIT_EXPRS
         core = list(CORE_EXPRS) if idx == 0 else rnd.sample(CORE_EXPRS, min(n_core, len(CORE_EXPRS)))
         if fn and idx % 2 == 1:
             core = rnd.sample(CORE_EXPRS, 25)
